@@ -45,7 +45,7 @@ def check(scn):
     if scn.get("repeat_ref"):
         batches[1] = batches[0].copy()
     cls = HDDDM if name == "HDDDM" else CDBD
-    det = cls(detect_batch=db, statistic=stat, significance=sig, divergence=div, subsets=3)
+    det = cls(detect_batch=db, statistic=stat, significance=sig, divergence=div, subsets=scn.get("subsets", 3))
     cols = ["f%d" % j for j in range(d)]
     np.random.seed(seed)
     det.set_reference(pd.DataFrame(batches[0], columns=cols))
@@ -208,6 +208,23 @@ def run(tier, seed, repo, focus=None):
                             res.count(key=repr(scn), nontrivial=True, n=12, check="%s recomputation" % name)
                             if msg:
                                 res.violation("%s: %s" % (name, msg), REPLAY % dict(verif=VERIF, scn=scn), known)
+    # randomly drawn parameters and longer histories (more batches per epoch, more epochs)
+    prng = np.random.RandomState(seed + 707)
+    for r in range(6 if quick else 60):
+        name = "HDDDM" if prng.rand() < 0.6 else "CDBD"
+        stat = "tstat" if prng.rand() < 0.5 else "stdev"
+        scn = {"det": name, "detect_batch": int(prng.randint(1, 4)), "statistic": stat,
+               "significance": float(prng.choice([0.01, 0.05, 0.2, 0.4]) if stat == "tstat" else prng.choice([0.5, 1.0, 2.0, 3.0])),
+               "divergence": str(prng.choice(["H", "KL"])), "d": 1 if name == "CDBD" else int(prng.randint(1, 4)),
+               "seed": seed + r, "batches": 20, "subsets": int(prng.randint(2, 6)),
+               "levels": [0, 0, 0, 0, 0, 4, 4, 4, 4, 4, 4, -3, -3, -3, -3, -3, 0, 0, 0, 0, 0]}
+        try:
+            msg = check(scn)
+        except Exception as e:
+            msg = "%s: %s" % (type(e).__name__, e)
+        res.count(key=repr(scn), nontrivial=True, n=20, check="%s recomputation (random parameters)" % name)
+        if msg:
+            res.violation("%s: %s" % (name, msg), REPLAY % dict(verif=VERIF, scn=scn), known)
     for s in range(20 if quick else 200):
         scn = {"seed": seed + s, "bins": 3 + s % 7}
         msg = check_metric(scn)
